@@ -110,6 +110,25 @@ func (r *cresp) render(rng *rand.Rand, key string, reqProtos []string, reqExts [
 		lines = append(lines, "Sec-WebSocket-Accept: "+acceptFor("dGhlIHNhbXBsZSBub25jZQ=="))
 	case "short":
 		lines = append(lines, "Sec-WebSocket-Accept: "+acc[:27])
+	case "lowbits": // differs from the right value only in the unused low bits of the last symbol
+		const b64 = "ABCDEFGHIJKLMNOPQRSTUVWXYZabcdefghijklmnopqrstuvwxyz0123456789+/"
+		i := strings.IndexByte(b64, acc[26])
+		lines = append(lines, "Sec-WebSocket-Accept: "+acc[:26]+string(b64[i^(1+rng.Intn(3))])+acc[27:])
+	case "casefold": // base64 is case sensitive
+		b := []byte(acc)
+		for i, ch := range b {
+			if ch >= 'a' && ch <= 'z' {
+				b[i] = ch - 32
+				break
+			}
+			if ch >= 'A' && ch <= 'Z' {
+				b[i] = ch + 32
+				break
+			}
+		}
+		lines = append(lines, "Sec-WebSocket-Accept: "+string(b))
+	case "padded":
+		lines = append(lines, "Sec-WebSocket-Accept: "+acc+"=")
 	default:
 		add("Sec-WebSocket-Accept", r.Accept, acc, acc, "")
 	}
@@ -282,7 +301,7 @@ func c10(c *ctx) {
 	k := 0
 	for _, up := range []string{"absent", "ok", "varied", "dup", "wrong"} {
 		for _, co := range []string{"absent", "ok", "varied", "dup", "wrong"} {
-			for _, ac := range []string{"absent", "ok", "varied", "dup", "otherkey", "short"} {
+			for _, ac := range []string{"absent", "ok", "varied", "dup", "otherkey", "short", "lowbits", "casefold", "padded"} {
 				for _, pr := range []string{"none", "requested", "foreign"} {
 					for _, ex := range []string{"none", "offered", "offeredparams", "foreign", "mixed"} {
 						k++
